@@ -401,7 +401,7 @@ pub fn c01_history_matrix_n3_k3() {
 }
 
 // AdjacencyMatrix at order 8: cells 0..63 are exactly one 64-bit block.
-// @verif prop=C01 tier=thorough fl=f0 role=history/matrix t=1800 mem=16
+// @verif prop=C01 tier=exp fl=f0 role=history/matrix t=1800 mem=16
 #[cfg_attr(kani, kani::proof)]
 #[cfg_attr(kani, kani::unwind(10))]
 pub fn c01_history_matrix_n8_k2() {
@@ -472,21 +472,21 @@ pub fn c01_rejects_weighted_n3() {
     rejects_weighted::<3>();
 }
 
-// @verif prop=C01 tier=thorough fl=f1 role=history/edge-list t=3600 mem=24
+// @verif prop=C01 tier=thorough fl=f1 role=history/edge-list t=3600 mem=16
 #[cfg_attr(kani, kani::proof)]
 #[cfg_attr(kani, kani::unwind(8))]
 pub fn c01_history_edge_list_n4_k4() {
     history_fixed::<EdgeList, 4, 4>();
 }
 
-// @verif prop=C01 tier=thorough fl=f1 role=history/adjacency-list t=3600 mem=24
+// @verif prop=C01 tier=thorough fl=f1 role=history/adjacency-list t=3600 mem=16
 #[cfg_attr(kani, kani::proof)]
 #[cfg_attr(kani, kani::unwind(8))]
 pub fn c01_history_adjacency_list_n4_k3() {
     history_fixed::<AdjacencyList, 4, 3>();
 }
 
-// @verif prop=C01 tier=thorough fl=f0 role=history/matrix t=3600 mem=24
+// @verif prop=C01 tier=thorough fl=f0 role=history/matrix t=3600 mem=16
 #[cfg_attr(kani, kani::proof)]
 #[cfg_attr(kani, kani::unwind(8))]
 pub fn c01_history_matrix_n4_k4() {
